@@ -511,13 +511,10 @@ def check_setop(case):
     try:
         s1 = prog.render(prog.build_program(setop_program(case, case["tail"])), cls)
         s0 = prog.render(prog.build_program(setop_program(case, canon)), cls)
-        s_str = str(prog.build_program(setop_program(case, case["tail"])))
     except Exception as e:
         return [(mksig("setop", cls, "raises", type(e).__name__), repr(e))]
     if s1 != s0:
         out.append((mksig("order", "setop", "/".join(sorted(case["tail"]))), "the tail calls %r and %r give %r vs %r" % (case["tail"], canon, s1, s0))) 
-    if s_str != s1:
-        out.append((mksig("setop", "entry_points"), "str() gives %r, get_sql(ctx) %r" % (s_str, s1)))
     toks = lex.lex(s1, cls)
     if any(t.kind == "bad" for t in toks) or not lex.balanced(toks):
         out.append((mksig("wellformed", "any", "unbalanced", "setop"), s1))
